@@ -88,8 +88,16 @@ func symxC07() {
 	}
 	newS, newC := target.session("new", "cn", "m", 30)
 	f := int(rt.Int("filter", 0, int64(len(symxRetFilters)-1)))
+	subTopics, subQos := [][]byte{[]byte(symxRetFilters[f])}, []int32{0}
+	f2 := -1
+	if rt.Param("two_filters", 0) == 1 && rt.Bool("second_filter") {
+		// one SUBSCRIBE packet with two filters: each is a subscription of its own
+		f2 = int(rt.Int("filter2", 0, int64(len(symxRetFilters)-1)))
+		rt.Assume(f2 != f)
+		subTopics, subQos = [][]byte{[]byte(symxRetFilters[f2]), []byte(symxRetFilters[f])}, []int32{0, 0}
+	}
 	symxTick()
-	err = tp.proc.Process(target.ctx, newS, newC, &packet.Subscribe{Header: &packet.Header{}, MessageId: 7, Topic: [][]byte{[]byte(symxRetFilters[f])}, Qos: []int32{0}})
+	err = tp.proc.Process(target.ctx, newS, newC, &packet.Subscribe{Header: &packet.Header{}, MessageId: 7, Topic: subTopics, Qos: subQos})
 	rt.Assert(err == nil, "C07.subscribe_ok")
 	rt.Quiesce()
 	pkts := newC.written()
@@ -112,7 +120,10 @@ func symxC07() {
 	for t := range symxRetTopics {
 		want := 0
 		if len(ref[t]) > 0 && symxFilterMatches(symxRetFilters[f], symxRetTopics[t]) {
-			want = 1
+			want++
+		}
+		if f2 >= 0 && len(ref[t]) > 0 && symxFilterMatches(symxRetFilters[f2], symxRetTopics[t]) {
+			want++
 		}
 		rt.Assert(seen[t] == want, "C07.exactly_one_replay_per_matching_retained_topic")
 	}
